@@ -2028,17 +2028,17 @@ func ruleCP13(c *Ctx) *rule {
 			if !feasible {
 				continue
 			}
-			if rl.loop != nil && (nx == rl.loop.header && rl.loop.body[b] || !rl.loop.body[nx]) {
+			if rl.loop != nil && nx == rl.loop.header && rl.loop.body[b] {
 				if owed {
-					if _, isRet := lastInstr(nx).(*ssa.Return); isRet && !rl.loop.body[nx] {
-						dfs(nx, owed, restored, next.enter(nx, b), path)
-						continue
-					}
 					bad, badPath = "the iteration ends after the recorded digest was forgotten, without the commands having run and without the digest having been written back and persisted", path
 					return
 				}
 				continue
 			}
+			if rl.loop != nil && !rl.loop.body[nx] && !owed {
+				continue
+			}
+			// (leaving the loop while something is owed: judged at the return it leads to - an error return is fine)
 			dfs(nx, owed, restored, next.enter(nx, b), path)
 		}
 	}
